@@ -2,6 +2,8 @@
 
 package client
 
+import "context"
+
 // VerifRegistered returns the number of registered response handlers, or -1
 // if the registry lock is held (only called at quiescent points).
 func (rm *RpcMultiplexer) VerifRegistered() int {
@@ -11,3 +13,6 @@ func (rm *RpcMultiplexer) VerifRegistered() int {
 	defer rm.mutex.Unlock()
 	return len(rm.handlers)
 }
+
+// VerifCtx is the multiplexer's own context (cancelled when the connection ends).
+func (rm *RpcMultiplexer) VerifCtx() context.Context { return rm.ctx }
